@@ -203,6 +203,24 @@ def run(ctx, report: Report) -> None:
 
     # ---- R5 --------------------------------------------------------------------------------------------
     r5 = report.rule('C09-R5', 'sibling grammars agree', floor=3)
+    # the An+B token grammar and the regex that splits an accepted token into its parts (comments and whitespace included)
+    nth_src, re_nth = inv.const('css_parser', 'NTH'), inv.by_name('css_parser.RE_NTH')
+    if re_nth is None or not isinstance(nth_src, str):
+        raise AnalysisError('NTH / RE_NTH not found (anchor vanished)')
+    s = rx.System()
+    try:
+        A = s.add('NTH', nth_src, inv.by_name('token:pseudo_nth_child').flags)
+        B = s.add('RE_NTH', re_nth.pattern, re_nth.flags)
+        s.freeze()
+        d = rx.equivalent(A, B)
+    except rx.Unsupported as e:
+        raise AnalysisError(f'NTH/RE_NTH outside the exact regex model: {e}')
+    r5.instance({'pair': 'NTH (token) ~ RE_NTH (splitter), as full-match languages', 'difference': d}, key='nth-splitter')
+    r5.obligation(d is None)
+    if d is not None:
+        r5.violation(f'NTH~RE_NTH {d[0]} {d[1]!r}', re_nth.where,
+                     f'the An+B token grammar and its splitter RE_NTH disagree on {d[1]!r}: where the token admits whitespace or a '
+                     f'comment the splitter must too, otherwise it matches a prefix and the rest (the +B offset) is silently dropped')
     lang, cont = inv.by_name('token:pseudo_lang'), inv.by_name('token:pseudo_contains')
     s = rx.System()
     A = s.add('lang', lang.pattern, lang.flags)
